@@ -609,6 +609,11 @@ pub fn hostile_lengths(rng: &mut Rng, remaining: usize) -> Vec<u64> {
         u64::MAX / 8 + 1,
         u64::MAX / 32,
     ];
+    // lengths that make `pointer + length` wrap around the address space and land near / inside the buffer again
+    v.push(u64::MAX - rng.below(4096));
+    v.push(u64::MAX - rng.below(1 << 20));
+    v.push(u64::MAX - (1u64 << 47) + rng.below(1 << 20));
+    v.push(0u64.wrapping_sub(remaining as u64 + rng.below(16)));
     let k = rng.below(64) as u32;
     v.push(1u64 << k);
     v.push((1u64 << k).wrapping_sub(1));
